@@ -418,6 +418,10 @@ def aliasing(ctx, rng):
     import copy as _copy
     handed = {"copy": m.copy(), "ctor": T(m), "variables": m.variables, "subs": m.subs({}), "round": round(m, 6),
               "deepcopy": _copy.deepcopy(m)}        # (copy.copy is shallow by definition: its sharing is Python's, not the library's)
+    if tn in ("QUBO", "PUBO", "PCBO", "QUBOMatrix", "PUBOMatrix"):
+        # one-operand gates hand out a model of their own, never the operand
+        for g_ in ("BUFFER", "OR", "XOR", "AND"):
+            handed["sat." + g_] = getattr(L.sat, g_)(m)
     if len(m):
         # a normalisation that has nothing to do (the largest magnitude already is the requested value) still hands out a new object
         mx_ = max(abs(v) for v in m.values())
@@ -432,13 +436,13 @@ def aliasing(ctx, rng):
             if public_state(obj) != before:
                 ctx.violation("%s:differs-from-original" % name, "%s(): %r vs %r" % (name, public_state(obj), before), w)
                 return
-        if name in ("copy", "ctor", "subs", "round", "deepcopy", "normalize"):
+        if name in ("copy", "ctor", "subs", "round", "deepcopy", "normalize") or name.startswith("sat."):
             if obj is m:
                 ctx.violation("%s:returns-the-same-object" % name, "%s returned the model itself" % name, w)
                 return
             # (name and an un-refreshed mapping are not part of what a copy must reproduce)
             ps = public_state(obj)
-            if name != "normalize" and any(ps.get(a) != before.get(a) for a in ("type", "terms", "constraints", "num_ancillas")):
+            if name != "normalize" and not name.startswith("sat.") and any(ps.get(a) != before.get(a) for a in ("type", "terms", "constraints", "num_ancillas")):
                 ctx.violation("%s:differs-from-original" % name, "%s(): %r vs %r" % (name, ps, before), w)
                 return
             obj[junk_key] = 3
